@@ -21,6 +21,12 @@ import RModel.Base.Bytes
   refinement theorem states what it assumes about `Ops` as explicit hypotheses.  `Model/HistoryTree.lean`
   gives the concrete `Ops` used by the driver and by the kernel-evaluated witnesses.
 
+  Two repairs are switchable (`Cfg`) so that the behaviour before them stays statable:
+    c3d511b  `apply_plan` first refuses a plan whose id is already in the history, before anything is changed
+             (redo goes through `apply_plan` too, so a same-second `redo-<id>-<sec>` is refused the same way);
+    07a4584  `redo_renaming` refuses an id that already has a `redo-<id>-…` entry ("has already been redone").
+  `Cfg.current` is the code as it is; `Cfg.beforeFixes` is the code before both commits.
+
   Not modelled: an unparsable history.json being replaced by an empty history (`load_from_path`; only reachable
   through a crash, C11), `--commit`, path renames (C01/C08), the lock (C12), log files.
 -/
@@ -62,6 +68,15 @@ inductive Outcome where
   | rejected   -- exit ≠ 0 before anything was written
   | failed     -- exit ≠ 0 after the tree and/or the backup store had been written
   deriving DecidableEq, Repr
+
+/-- which of the two repairs are present -/
+structure Cfg where
+  earlyDupCheck : Bool
+  redoOnce : Bool
+  deriving DecidableEq, Repr
+
+def Cfg.current : Cfg := { earlyDupCheck := true, redoOnce := true }
+def Cfg.beforeFixes : Cfg := { earlyDupCheck := false, redoOnce := false }
 
 inductive ApplyRes (Tree Backup : Type) where
   | ok (t : Tree) (b : Backup)   -- every file edited; `b` = the reverse patches that were written
@@ -112,6 +127,14 @@ def findEntry (es : List (Entry H)) (i : EId H) : Option (Entry H) := es.find? (
 /-- some entry is a revert of `i` -/
 def hasRevertOf (es : List (Entry H)) (i : EId H) : Bool := es.any (fun e => e.revertOf == some i)
 
+/-- some non-revert entry is `redo-<i>-…` (the `starts_with("redo-<id>-")` scan of `redo_renaming`) -/
+def isRedoOf (i : EId H) : EId H → Bool
+  | .redo j _ => j == i
+  | _ => false
+
+def hasRedoOf (es : List (Entry H)) (i : EId H) : Bool :=
+  es.any (fun e => e.revertOf.isNone && isRedoOf i e.id)
+
 /-- `resolve_latest_id(Undo)`: the most recent entry that is not a revert -/
 def latestUndo (es : List (Entry H)) : Option (EId H) :=
   (es.reverse.find? (fun e => e.revertOf.isNone)).map (·.id)
@@ -132,8 +155,10 @@ def addEntry (es : List (Entry H)) (e : Entry H) : Option (List (Entry H)) :=
   if hasId es e.id then none else some (es ++ [e])
 
 /-- `apply_plan` with `plan.id = id` (shared by `rename` and `redo`) -/
-def applyWithId (ops : Ops Tree Plan Backup H) (w : W Tree Plan Backup H) (id : EId H) (p : Plan) :
+def applyWithId (cfg : Cfg) (ops : Ops Tree Plan Backup H) (w : W Tree Plan Backup H) (id : EId H) (p : Plan) :
     W Tree Plan Backup H × Outcome :=
+  -- c3d511b: "History entry with ID … already exists", before the log file, the edits, the patches
+  if cfg.earlyDupCheck && hasId w.entries id then (w, .rejected) else
   match ops.apply w.tree p with
   | .rejected => (w, .rejected)
   | .partly t' => ({ w with tree := t' }, .failed)
@@ -143,14 +168,14 @@ def applyWithId (ops : Ops Tree Plan Backup H) (w : W Tree Plan Backup H) (id : 
     let w1 : W Tree Plan Backup H :=
       { w with tree := t', backups := put w.backups id (match old with | some o => ops.merge o b | none => b) }
     match addEntry w.entries { id := id, revertOf := none } with
-    | none => (w1, .failed)                                   -- "History entry with ID … already exists"
+    | none => (w1, .failed)                                   -- the same message, after the tree was changed
     | some es => ({ w1 with entries := es, plans := put w.plans id p }, .ok)
 
-def stepRename (ops : Ops Tree Plan Backup H) (w : W Tree Plan Backup H) (search replace : Bytes) :
+def stepRename (cfg : Cfg) (ops : Ops Tree Plan Backup H) (w : W Tree Plan Backup H) (search replace : Bytes) :
     W Tree Plan Backup H × Outcome :=
   let p := ops.scan w.tree search replace
   if ops.isEmpty p then (w, .noop)
-  else applyWithId ops w (.plan (ops.hash (search ++ replace) w.clock)) p
+  else applyWithId cfg ops w (.plan (ops.hash (search ++ replace) w.clock)) p
 
 def stepUndo (ops : Ops Tree Plan Backup H) (w : W Tree Plan Backup H) (t : Target H) :
     W Tree Plan Backup H × Outcome :=
@@ -172,30 +197,31 @@ def stepUndo (ops : Ops Tree Plan Backup H) (w : W Tree Plan Backup H) (t : Targ
             | some es => ({ w with tree := t', entries := es }, .ok)
         | _, _ => (w, .rejected)                               -- plan file / reverse patches missing
 
-def stepRedo (ops : Ops Tree Plan Backup H) (w : W Tree Plan Backup H) (t : Target H) :
+def stepRedo (cfg : Cfg) (ops : Ops Tree Plan Backup H) (w : W Tree Plan Backup H) (t : Target H) :
     W Tree Plan Backup H × Outcome :=
   match resolve w.entries false t with
   | none => (w, .rejected)
   | some i =>
     if !hasId w.entries i then (w, .rejected)
     else if !hasRevertOf w.entries i then (w, .rejected)       -- "has not been reverted"
+    else if cfg.redoOnce && hasRedoOf w.entries i then (w, .rejected)   -- 07a4584: "has already been redone"
     else match lookup w.plans i with
       | none => (w, .rejected)
-      | some p => applyWithId ops w (.redo i w.clock) p
+      | some p => applyWithId cfg ops w (.redo i w.clock) p
 
-def step (ops : Ops Tree Plan Backup H) (w : W Tree Plan Backup H) : Cmd H → W Tree Plan Backup H × Outcome
-  | .rename s r => stepRename ops w s r
+def step (cfg : Cfg) (ops : Ops Tree Plan Backup H) (w : W Tree Plan Backup H) : Cmd H → W Tree Plan Backup H × Outcome
+  | .rename s r => stepRename cfg ops w s r
   | .undo t => stepUndo ops w t
-  | .redo t => stepRedo ops w t
+  | .redo t => stepRedo cfg ops w t
   | .tick => ({ w with clock := w.clock + 1 }, .noop)
 
 /-- run a command list; the outcomes are collected oldest first -/
-def run (ops : Ops Tree Plan Backup H) : W Tree Plan Backup H → List (Cmd H) →
+def run (cfg : Cfg) (ops : Ops Tree Plan Backup H) : W Tree Plan Backup H → List (Cmd H) →
     W Tree Plan Backup H × List Outcome
   | w, [] => (w, [])
   | w, c :: cs =>
-    let r := step ops w c
-    let rest := run ops r.1 cs
+    let r := step cfg ops w c
+    let rest := run cfg ops r.1 cs
     (rest.1, r.2 :: rest.2)
 
 def init (t : Tree) (clock : Nat := 0) : W Tree Plan Backup H :=
